@@ -2,6 +2,7 @@ package main
 
 import (
 	"fmt"
+	"net/netip"
 	"strings"
 
 	"github.com/mycoria/mycoria/frame"
@@ -29,5 +30,19 @@ func genFrame(sb *strings.Builder) error {
 	sb.WriteString("Definition is_enc (t : N) : bool := N.eqb (step_lookup is_enc_table t 0) 1.\n")
 	fmt.Fprintf(sb, "Definition class_unknown : N := %d.\nDefinition class_signed : N := %d.\nDefinition class_prio_enc : N := %d.\nDefinition class_enc : N := %d.\n\n",
 		frame.MessageClassUnknown, frame.MessageClassSigned, frame.MessageClassPriorityEncrypted, frame.MessageClassEncrypted)
+	// message types the router treats specially
+	fmt.Fprintf(sb, "Definition mt_router_hop_ping_deprecated : N := %d.\nDefinition mt_router_ping : N := %d.\nDefinition mt_router_ctrl : N := %d.\nDefinition mt_router_hop_ping : N := %d.\nDefinition mt_network_traffic : N := %d.\n",
+		frame.RouterHopPingDeprecated, frame.RouterPing, frame.RouterCtrl, frame.RouterHopPing, frame.NetworkTraffic)
+	// ReduceTTL(1) tabulated over all 256 TTL values, and the TTL of a freshly built frame
+	b := frame.NewFrameBuilder()
+	src, dst := netip.MustParseAddr("fd00::1"), netip.MustParseAddr("fd00::2")
+	f, err := b.NewFrameV1(src, dst, frame.RouterPing, nil, []byte{1}, nil)
+	if err != nil {
+		return err
+	}
+	fmt.Fprintf(sb, "Definition frame_default_ttl : N := %d.\n", f.TTL())
+	sb.WriteString("(* FrameV1.ReduceTTL(1) tabulated over all 256 TTL values *)\n")
+	fmt.Fprintf(sb, "Definition reduce_ttl_table : list (N * N) := %s.\n", stepTable(256, func(i int) int { f.SetTTL(uint8(i)); f.ReduceTTL(1); return int(f.TTL()) }))
+	sb.WriteString("Definition reduce_ttl_code (t : N) : N := step_lookup reduce_ttl_table t 0.\n\n")
 	return nil
 }
